@@ -144,22 +144,23 @@ def reg3(ctx: Ctx) -> None:
     outer = [s for s in fn.body if isinstance(s, ast.For) and "nested_names" in norm(s.iter)]
     if len(outer) != 1:
         raise AnalysisError("REG-3: nested-name loop vanished")
-    inner = [s for s in outer[0].body if isinstance(s, ast.For)]
-    good = False
-    if len(inner) == 1 and norm(inner[0].iter) == "code.co_consts" and inner[0].orelse and isinstance(inner[0].orelse[-1], ast.Raise):
-        ifs = [s for s in inner[0].body if isinstance(s, ast.If)]
-        if len(ifs) == 1:
-            t = ifs[0].test
-            cv = norm(inner[0].target)
-            conj = [norm(x) for x in t.values] if isinstance(t, ast.BoolOp) and isinstance(t.op, ast.And) else [norm(t)]
-            namevar = norm(outer[0].target.elts[1]) if isinstance(outer[0].target, ast.Tuple) else norm(outer[0].target)
-            if f"isinstance({cv}, types.CodeType)" in conj and f"{cv}.co_name == {namevar}" in conj \
-                    and [norm(x) for x in ifs[0].body] == [f"code = {cv}", "break"]:
-                good = True
-    if good:
-        ctx.R.ok("REG-3", "nested names are resolved through co_consts by co_name, failing loudly when absent")
+    namevar = norm(outer[0].target.elts[1]) if isinstance(outer[0].target, ast.Tuple) else norm(outer[0].target)
+    inner = [s for s in ast.walk(outer[0]) if isinstance(s, ast.For) and s is not outer[0] and norm(s.iter).endswith(".co_consts")]
+    name_cmp = [c for c in ast.walk(outer[0]) if isinstance(c, ast.Compare) and len(c.ops) == 1 and isinstance(c.ops[0], ast.Eq)
+                and sorted([norm(c.left).split(".")[-1], norm(c.comparators[0])]) in (sorted(["co_name", namevar]),)]
+    code_test = [c for c in ast.walk(outer[0]) if isinstance(c, ast.Call) and norm(c.func) == "isinstance" and len(c.args) == 2 and "CodeType" in norm(c.args[1])]
+    raises = [r for r in ast.walk(outer[0]) if isinstance(r, ast.Raise)]
+    if not inner:
+        ctx.R.undecided("REG-3", "nested-name lookup no longer iterates over co_consts in a recognisable way")
+    elif not name_cmp:
+        ctx.R.fail("REG-3", mod, outer[0], f"nested names are looked up in co_consts without comparing co_name with the requested name: the first nested code object is taken whatever it is called",
+                   construct="nested-name lookup: co_name comparison missing")
+    elif not code_test:
+        ctx.R.fail("REG-3", mod, outer[0], "nested-name lookup does not test that the constant is a code object", construct="nested-name lookup: isinstance CodeType missing")
+    elif not raises:
+        ctx.R.fail("REG-3", mod, outer[0], "a nested name that does not exist must raise, not silently keep the enclosing code object", construct="nested-name lookup: no raise")
     else:
-        ctx.R.fail("REG-3", mod, outer[0], "each nested name must select the code constant whose co_name equals it (and raise if there is none)", construct="nested-name lookup")
+        ctx.R.ok("REG-3", "nested names are resolved through co_consts by co_name (code objects only), failing loudly when absent")
     rets = [s for s in fn.body if isinstance(s, ast.Return)]
     if not (rets and norm(rets[-1].value) == "code"):
         ctx.R.fail("REG-3", mod, fn, "get_code must return the resolved code object", construct="return code")
@@ -245,43 +246,111 @@ def reg5(ctx: Ctx) -> None:
     partials = [c for c in calls_in(fn, True) if norm(c.func) == "functools.partial" and c.args and norm(c.args[0]) == "customize"]
     if len(partials) != 1:
         raise AnalysisError("REG-5: decorator form (functools.partial(customize, ...)) vanished")
-    kws = {k.arg: norm(k.value) for k in partials[0].keywords}
+    pc = partials[0]
+    kws = {k.arg: norm(k.value) for k in pc.keywords if k.arg}
+    star = [k.value for k in pc.keywords if k.arg is None]
+    undecidable = False
+    for sv in star:
+        # **opts where opts is a dict literal bound in this function
+        src = [a.value for a in ast.walk(fn) if isinstance(a, ast.Assign) and isinstance(sv, ast.Name) and norm(a.targets[0]) == sv.id]
+        if len(src) == 1 and isinstance(src[0], ast.Dict) and all(isinstance(k, ast.Constant) for k in src[0].keys):
+            kws.update({k.value: norm(v) for k, v in zip(src[0].keys, src[0].values)})
+        elif len(src) == 1 and isinstance(src[0], ast.Call) and norm(src[0].func) == "dict" and not src[0].args:
+            kws.update({k.arg: norm(k.value) for k in src[0].keywords if k.arg})
+        else:
+            undecidable = True
     for o in opts:
         if kws.get(o) == o:
             ctx.R.ok("REG-5", f"decorator form forwards {o}={o}")
+        elif o in kws:
+            ctx.R.fail("REG-5", cm, pc, f"the decorator form passes `{kws[o]}` for option `{o}`", construct=f"decorator form: {o}={kws[o]}")
+        elif undecidable:
+            ctx.R.undecided("REG-5", f"cannot see whether option `{o}` is forwarded through {norm(pc)[:60]}")
         else:
-            ctx.R.fail("REG-5", cm, partials[0], f"option `{o}` is not forwarded in the decorator form @customize({o}=...): it is silently ignored there",
+            ctx.R.fail("REG-5", cm, pc, f"option `{o}` is not forwarded in the decorator form @customize({o}=...): it is silently ignored there",
                        construct=f"decorator form: {o}")
-    gs = [g for g, pol in guards_of(cm, partials[0], fn) if pol]
+    gs = [g for g, pol in guards_of(cm, pc, fn) if pol]
     if not any(norm(g) == "target is None" for g in gs):
-        ctx.R.fail("REG-5", cm, partials[0], "the decorator form must be chosen iff no target was given")
-    # effects
+        ctx.R.undecided("REG-5", "the decorator form is not chosen by `target is None` any more")
+    # ---- liveness in customize_it: an option that is never read there has no effect (this is F3)
+    reads = {n.id for n in ast.walk(it) if isinstance(n, ast.Name) and isinstance(n.ctx, ast.Load)}
+    for o in opts:
+        if o not in reads:
+            ctx.R.fail("REG-5", cm, it, f"option `{o}` is never read by the registered hook: it has no effect on matching frames", construct=f"effect of {o}")
+    # hide / hide_line: a store of True to the same-named Frame attribute under a guard on the option
+    fparam = it.args.args[0].arg
     for o in ("hide", "hide_line"):
-        eff = [s for s in ast.walk(it) if isinstance(s, ast.Assign) and norm(s.targets[0]) == f"frame.{o}" and norm(s.value) == "True"]
-        ok = False
-        for s in eff:
-            g = [norm(x) for x, pol in guards_of(cm, s, it) if pol]
-            if g == [o]:
-                ok = True
-        if ok:
-            ctx.R.ok("REG-5", f"direct form: `if {o}: frame.{o} = True`")
+        if o not in reads:
+            continue
+        stores = [s_ for s_ in ast.walk(it) if isinstance(s_, ast.Assign) and norm(s_.targets[0]) == f"{fparam}.{o}"]
+        good = [s_ for s_ in stores if norm(s_.value) in ("True", o) and (norm(s_.value) == o or any(norm(x) == o for x, pol in guards_of(cm, s_, it) if pol))]
+        if good:
+            ctx.R.ok("REG-5", f"direct form: {o} -> {fparam}.{o} = True")
+        elif not stores:
+            ctx.R.fail("REG-5", cm, it, f"option `{o}` is read but Frame.{o} is never set from it: matching frames do not get {o}=True", construct=f"effect of {o}")
         else:
-            ctx.R.fail("REG-5", cm, it, f"option `{o}` has no effect on matching frames (Frame.{o} is never set from it)", construct=f"effect of {o}")
-    txt = norm(it)
-    if "replacement = elaborate(frame, next_inner)" in txt and "if replacement is not None:\n            return replacement" in txt.replace("  ", "  "):
-        ctx.R.ok("REG-5", "elaborate's non-None result is returned first")
-    else:
-        el = [s for s in ast.walk(it) if isinstance(s, ast.Assign) and norm(s.value) == "elaborate(frame, next_inner)"]
-        rets = [s for s in ast.walk(it) if isinstance(s, ast.Return) and el and norm(s.value) == norm(el[0].targets[0])]
-        if el and rets:
-            ctx.R.ok("REG-5", "elaborate's non-None result is returned first")
+            ctx.R.undecided("REG-5", f"store to {fparam}.{o} present but not in a recognised `if {o}:` shape")
+    # elaborate: its result must be returned whenever it is not None
+    if "elaborate" in reads:
+        ecalls = [c for c in ast.walk(it) if isinstance(c, ast.Call) and norm(c.func) == "elaborate"]
+        if not ecalls:
+            ctx.R.fail("REG-5", cm, it, "the elaborate callback is never called", construct="effect of elaborate")
         else:
-            ctx.R.fail("REG-5", cm, it, "the elaborate callback must be called with (frame, next_inner) and its non-None result returned", construct="effect of elaborate")
-    last = it.body[-1]
-    if isinstance(last, ast.Return) and norm(last.value) in ("PRUNE if prune else None", "() if prune else None"):
-        ctx.R.ok("REG-5", "otherwise PRUNE iff prune")
-    else:
-        ctx.R.fail("REG-5", cm, last, "without an elaborate result, customize_it must return PRUNE iff prune", construct="effect of prune")
+            ec = ecalls[0]
+            if [norm(a) for a in ec.args] != [a.arg for a in it.args.args]:
+                ctx.R.fail("REG-5", cm, ec, "the elaborate callback must be called with (frame, next_inner)", construct="elaborate arguments")
+            # the variable holding the result (through conditional expressions)
+            rvars = set()
+            for a in ast.walk(it):
+                if isinstance(a, ast.Assign) and any(x is ec for x in ast.walk(a.value)) and isinstance(a.targets[0], ast.Name):
+                    rvars.add(a.targets[0].id)
+            rets = [r for r in ast.walk(it) if isinstance(r, ast.Return) and r.value is not None]
+            verdict = None
+            for r in rets:
+                v = r.value
+                names = {n.id for n in ast.walk(v) if isinstance(n, ast.Name)}
+                direct = any(x is ec for x in ast.walk(v))
+                if not (names & rvars) and not direct:
+                    continue
+                if isinstance(v, ast.BoolOp) and isinstance(v.op, ast.Or):
+                    verdict = ("bad", r, "is returned through `or`: a falsy result (PRUNE / an empty list) is discarded although only None means 'no result'")
+                    break
+                if isinstance(v, ast.Name) and v.id in rvars:
+                    gsr = [(norm(gx), pol) for gx, pol in guards_of(cm, r, it)]
+                    if (f"{v.id} is not None", True) in gsr or (f"{v.id} is None", False) in gsr:
+                        verdict = ("ok", r, "")
+                    elif (v.id, True) in gsr:
+                        verdict = ("bad", r, "is returned only if truthy: a falsy result (PRUNE / an empty list) is discarded although only None means 'no result'")
+                        break
+                    elif verdict is None:
+                        verdict = ("unknown", r, "")
+                elif isinstance(v, ast.IfExp) and norm(v.body) in rvars and norm(v.test) == f"{norm(v.body)} is not None":
+                    verdict = ("ok", r, "")
+                elif verdict is None:
+                    verdict = ("unknown", r, "")
+            if verdict is None:
+                ctx.R.fail("REG-5", cm, it, "the result of the elaborate callback is never returned: a replacement it supplies is ignored", construct="effect of elaborate")
+            elif verdict[0] == "bad":
+                ctx.R.fail("REG-5", cm, verdict[1], "the result of the elaborate callback " + verdict[2], construct="effect of elaborate")
+            elif verdict[0] == "ok":
+                ctx.R.ok("REG-5", "elaborate's non-None result is returned first")
+            else:
+                ctx.R.undecided("REG-5", "the elaborate result reaches a return in a shape that is not recognised")
+    # prune
+    if "prune" in reads:
+        prets = [r for r in ast.walk(it) if isinstance(r, ast.Return) and r.value is not None and (norm(r.value) in ("PRUNE", "()") or (isinstance(r.value, ast.IfExp) and norm(r.value.body) in ("PRUNE", "()")))]
+        okp = False
+        for r in prets:
+            if isinstance(r.value, ast.IfExp):
+                okp = okp or (norm(r.value.test) == "prune" and norm(r.value.orelse) == "None")
+            else:
+                okp = okp or any(norm(gx) == "prune" and pol for gx, pol in guards_of(cm, r, it))
+        if okp:
+            ctx.R.ok("REG-5", "otherwise PRUNE iff prune")
+        elif not prets:
+            ctx.R.fail("REG-5", cm, it, "option `prune` is read but PRUNE is never returned", construct="effect of prune")
+        else:
+            ctx.R.undecided("REG-5", "PRUNE is returned in a shape that is not recognised")
     decs = [norm(d) for d in it.decorator_list]
     if decs == ["elaborate_frame.register(target, *inner_names)"]:
         ctx.R.ok("REG-5", "customize_it is registered for (target, *inner_names)")
